@@ -39,6 +39,7 @@ class State:
         self.schemas = []
         self.terms = []
         self.epoch = tag
+        self.track_keys = False
 
     def clone(self):
         n = State.__new__(State)
@@ -53,6 +54,7 @@ class State:
         n.schemas = list(self.schemas)
         n.terms = list(self.terms)
         n.epoch = self.epoch
+        n.track_keys = self.track_keys
         return n
 
     def havoc_all(self, epoch):
